@@ -214,6 +214,44 @@ def api_calls(version, vlevel):
       ("header-add", lambda g, s: (g.header.add("xx", s), str(g))),
       ("header-set", lambda g, s: (g.header.set(s, 1), str(g))),
   ]
+  # a refused call, caught by the caller, then ordinary calls on the same
+  # objects: nothing but gfapy.Error may come out of those either
+  def swallow(fn):
+    try:
+      fn()
+    except gfapy.Error:
+      pass
+  other = ("p1" if version == "gfa1" else "e1")   # a path / an edge
+  for tgt_name, getter in (("seg", lambda g: g.segment(seg)),
+                           ("other", lambda g: g.line(other))):
+    menu += [
+        ("rename-" + tgt_name + ";rename",
+         lambda g, s, getter=getter: (lambda o: (
+             swallow(lambda: setattr(o, "name", s)),
+             swallow(lambda: setattr(o, "name", "q9")), str(g),
+             swallow(g.validate)))(getter(g))),
+        ("rename-" + tgt_name + ";rm",
+         lambda g, s, getter=getter: (lambda o: (
+             swallow(lambda: setattr(o, "name", s)),
+             swallow(lambda: g.rm(o)), str(g),
+             swallow(g.validate)))(getter(g))),
+        ("rename-" + tgt_name + ";disconnect;add",
+         lambda g, s, getter=getter: (lambda o: (
+             swallow(lambda: setattr(o, "name", s)),
+             swallow(o.disconnect), swallow(lambda: g.add_line(o)), str(g),
+             swallow(g.validate)))(getter(g))),
+    ]
+  menu += [
+      ("add_line;add_line", lambda g, s: (
+          swallow(lambda: g.add_line(s)),
+          swallow(lambda: g.add_line("S\tq9\t*" if version == "gfa1"
+                                     else "S\tq9\t1\t*")),
+          str(g), swallow(g.validate))),
+      ("set-value;set-value", lambda g, s: (lambda o: (
+          swallow(lambda: o.set("xx", s)), swallow(lambda: o.set("xx", 1)),
+          swallow(lambda: o.delete("xx")), swallow(lambda: o.set("xx", "a")),
+          str(g), swallow(o.validate)))(g.segment(seg))),
+  ]
   # encoded strings assigned to a tag of every datatype, then written/validated
   for dt in "AifZJHB":
     menu.append(("set-typed-" + dt,
@@ -256,7 +294,8 @@ def work_api(item):
   name, fn = menu[name_idx]
   n = 0
   alpha = TYPED_ALPHA if name.startswith("set-typed-") else API_ALPHA
-  for s in enumstr.all_strings(alpha, 3):
+  # (the two-step programs: strings of length <= 2)
+  for s in enumstr.all_strings(alpha, 2 if ";" in name else 3):
     n += 1
     res["evaluations"] += 1
     try:
